@@ -8,31 +8,31 @@ HERE = os.path.dirname(os.path.dirname(os.path.abspath(__file__)))
 CHECKS = {
     "C16": dict(
         technique="TLC model checking of SeqCounter.tla (complete graph) + every-edge replay into both counter implementations + TLC linearisability validation of recorded concurrent/wire histories",
-        text="The complete finite state graph of the two counters is model-checked (range, successor-in-own-cycle, never 0, independence; unlocked variant refuted as negative control). Every edge of TLC's graph is replayed into GeckoAsyncUdpProtocol and GeckoUdpSocket; concurrent call histories of the threaded socket (preemption injected at every line + free-running stress) and the wire histories of real async/threaded client sessions are validated by TLC as runs of the model.",
+        text="The complete finite state graph of the two counters is model-checked (range, successor-in-own-cycle, never 0, independence; unlocked variant refuted as negative control). Every edge of TLC's graph is replayed into GeckoAsyncUdpProtocol and GeckoUdpSocket; concurrent call histories of the threaded socket (preemption injected at every line + free-running stress) and the wire histories of real async/threaded client sessions are validated by TLC as runs of the model. Wire sessions include a lossy async session (retries draw numbers), water-care changes against an answering peer, and a blocking session whose ping thread runs (cooperative real threads on the virtual clock) through a period without ping answers.",
         note="Trusted: TLC, the dot-graph parser, the datagram decoder (verb + sequence byte), the W1/W2 doubles. Real-thread preemption is sampled, not exhaustive.",
         design="§4 C16"),
 }
 
 CHECKS["C01"] = dict(
     technique="TLC model checking of StatusTransfer.tla (async+sync variants; safety under loss/dup/re-order/timeouts, fault-free liveness) + replay of TLC-emitted transitions into the real structure classes/simulator + TLC trace validation of real-scale fault-injected transfers",
-    text="All (start,len) ranges of a small block are model-checked against every loss/duplication/re-ordering/timeout pattern within a fault budget for both client variants (NoPartialInstall, OkMeansSpaBytes with per-byte source offsets, SentBound, fault-free success as a liveness property). TLC's transitions are replayed step by step on GeckoAsyncStructure.get / GeckoStructure + the real simulator chain with projected state compared after every action; at real scale (1024/39/configured retries) seeded fault scripts are recorded and TLC validates each log as a behaviour of the spec, evaluating the invariants on every state.",
+    text="All (start,len) ranges of a small block are model-checked against every loss/duplication/re-ordering/timeout pattern within a fault budget for both client variants (NoPartialInstall, OkMeansSpaBytes with per-byte source offsets, SentBound, fault-free success as a liveness property). TLC's transitions are replayed step by step on GeckoAsyncStructure.get / GeckoStructure + the real simulator chain with projected state compared after every action; at real scale (1024/39/configured retries) seeded fault scripts are recorded and TLC validates each log as a behaviour of the spec, evaluating the invariants on every state. The blocking stack is stepped by running one pass of the real engine loop; datagrams are also handed to it back to back, and stragglers are delivered after the transfer returned (LateDeliver in the specification: nothing changes, nothing is sent).",
     note="Trusted: TLC, W1/W2 doubles, un-framing by the real packet handler outside the consumer task, byte classification (old/spa/junk) with position-coded or random blocks. Fault-free success is at transfer level (queue races are C07).",
     design="§4 C01")
 
 CHECKS["C05"] = dict(
     technique="TLC model checking of PartialUpdate.tla (all short histories, both handler variants, accumulating-list negative control) + TLC trace validation of recorded real histories (async consume() task on the virtual loop, threaded stepped engine) with installs observed at their linearisation point",
-    text="All histories of <=4 partial-update messages / unreported spa changes / refreshes over a small block are model-checked for both handler variants (client block = sequential reference, one ack per message, ack in protocol range); the variant that never resets its change list is refuted as a control. Real histories (random and repeated positions, the 1-byte form, refreshes overwriting the same positions, one long history past the counter wrap) on the real async and threaded clients are recorded - every block install with the installing task, every STATQ - and TLC validates each log against the spec. Refresh calls are logged with their reported result: a refresh that reports success must leave its range equal to the spa's; every history contains a value that is changed by a reported update, silently changed back and refreshed by a byte-identical refresh.",
+    text="All histories of <=4 partial-update messages / unreported spa changes / refreshes over a small block are model-checked for both handler variants (client block = sequential reference, one ack per message, ack in protocol range); the variant that never resets its change list is refuted as a control. Real histories (random and repeated positions, the 1-byte form, refreshes overwriting the same positions, one long history past the counter wrap) on the real async and threaded clients are recorded - every block install with the installing task, every STATQ - and TLC validates each log against the spec. Refresh calls are logged with their reported result: a refresh that reports success must leave its range equal to the spa's; every history contains a value that is changed by a reported update, silently changed back and refreshed by a byte-identical refresh. Partial updates that arrive during the handshake (before the first full block) are logged as early events: acknowledged once, and nothing they leave in the handler may come back with a later message.",
     note="Trusted: TLC, W1/W2 doubles, the instance-level wrapper around replace_status_block_segment, STATQ decoding by the harness. Steps are taken only while no transfer is in flight (a refresh overlapping a spa-side change is a protocol-level race, not a library property).",
     design="§4 C05")
 
 CHECKS["C02"] = dict(
     technique="BitField.tla operators as oracle: laws model-checked by TLC on the complete sub-field/word/value domain; every shipped item driven through both real write paths and each record judged by TLC (C02_Judge)",
-    text="Read/Write/Outside of bit fields inside 1/2-byte big-endian words are specified in BitField.tla; TLC checks read-back, isolation and neighbour laws for every (bit position, mask) shape x word content x value (quick: 1024 word contents incl. all 1-byte ones; thorough: all 65536). The harness extracts every item of all 151 config/log modules through real accessor objects and runs the sync and async write paths; TLC judges each record: refusal for read-only items, emitted (pos,len,word) = Write(existing, shape, value), mask derivation from MaxItems, applied block, read-back, other bits/bytes/items unchanged. Temperature items go through the temperature accessor's write paths (every raw in the setpoint range x unit x path) and are judged by C14_Judge.",
+    text="Read/Write/Outside of bit fields inside 1/2-byte big-endian words are specified in BitField.tla; TLC checks read-back, isolation and neighbour laws for every (bit position, mask) shape x word content x value (quick: 1024 word contents incl. all 1-byte ones; thorough: all 65536). The harness extracts every item of all 151 config/log modules through real accessor objects and runs the sync and async write paths; TLC judges each record: refusal for read-only items, emitted (pos,len,word) = Write(existing, shape, value), mask derivation from MaxItems, applied block, read-back, other bits/bytes/items unchanged. Temperature items go through the temperature accessor's write paths (every raw in the setpoint range x unit x path) and are judged by C14_Judge. Exceptions raised by the library while a device write is applied are recorded outcomes; a history with notifying updates switches the unit setting through an update that starts exactly at the units byte and reads / writes temperatures on the same accessor objects.",
     note="Trusted: TLC, extraction of shapes through accessor attributes, application of a device write as a big-endian word at (pos,len). Known findings: three ill-formed table entries (D12).",
     design="§4 C02")
 CHECKS["C14"] = dict(
     technique="temperature arithmetic of BitField.tla on exact rationals: laws model-checked on all 65536 raws x 2 units; records of the real temperature accessor / water heater (all raws, both write paths, decimals, units, operation ladder) judged by TLC (C14_Judge)",
-    text="Shown/Stored/WithinOneStep and the operation ladder are specified in TLA+; C14_MC checks Stored(Shown(raw)) = raw, monotonicity and hundredth-degree behaviour exhaustively. The real GeckoTempStructAccessor is read for every raw word in both units, the shown value written back through both write paths (must reproduce the raw word), every hundredth of a degree in and around the allowed range written (within one device step, order preserved), and GeckoWaterHeater's unit symbol, limits and current_operation evaluated for every flag/temperature combination on real table pairs of every platform; TLC judges every record.",
+    text="Shown/Stored/WithinOneStep and the operation ladder are specified in TLA+; C14_MC checks Stored(Shown(raw)) = raw, monotonicity and hundredth-degree behaviour exhaustively. The real GeckoTempStructAccessor is read for every raw word in both units, the shown value written back through both write paths (must reproduce the raw word), every hundredth of a degree in and around the allowed range written (within one device step, order preserved), and GeckoWaterHeater's unit symbol, limits and current_operation evaluated for every flag/temperature combination on real table pairs of every platform; TLC judges every record. Writes through the heater's own setters (both stacks) for a sweep of raw words in both units; a notifying unit-switch history on the same accessor objects.",
     note="Trusted: TLC, Fraction(x).limit_denominator(180) as the float->rational projection, symbol tags. Platforms without TempUnits/heater items cannot build a heater (C11 finding) and contribute no records.",
     design="§4 C14")
 
@@ -44,19 +44,19 @@ CHECKS["C18"] = dict(
 
 CHECKS["C04"] = dict(
     technique="Wire.tla (byte layout of every message kind, framing, claim matrix, reply addressing) with laws model-checked by TLC over delimiter-made payloads; records from the real constructors / all 15 handler classes / peer decoders judged by TLC (C04_Judge)",
-    text="Enc, Frame, ParseFrame, ParseHello, Claims and Owner are specified in TLA+; Wire_MC checks frame and hello round trips for payloads built from the tags themselves, the claim matrix and prefix-freeness. Every real constructor is called with boundary and seeded field values (all sequence/position boundaries, 0..255-byte binary segments incl. tag text and newlines, signed reminder days, every shipped platform name x versions, names with separators and latin-1); bytes, can_handle of every standard class on datagram and content, fields decoded by a fresh and by a long-lived peer handler, and a reply built from the received parms are judged by TLC.",
+    text="Enc, Frame, ParseFrame, ParseHello, Claims and Owner are specified in TLA+; Wire_MC checks frame and hello round trips for payloads built from the tags themselves, the claim matrix and prefix-freeness. Every real constructor is called with boundary and seeded field values (all sequence/position boundaries, 0..255-byte binary segments incl. tag text and newlines, signed reminder days, every shipped platform name x versions, names with separators and latin-1); bytes, can_handle of every standard class on datagram and content, fields decoded by a fresh and by a long-lived peer handler, and a reply built from the received parms are judged by TLC. The bundled simulator as a responder (SimAnswers in Wire.tla): for every request datagram the verbs it queues, their addressing and the RF-error mode are judged.",
     note="Trusted: TLC, attribute extraction from handler objects. Identifiers contain no tag text. Known finding D13 (SETWC/WCREQ unclaimed) is judged against the stated property and matched by verb.",
     design="§4 C04")
 
 CHECKS["C03"] = dict(
     technique="Notify.tla model-checked by TLC (all offset/segment updates x watch/unwatch interleavings on a small block with byte-sharing and straddling items; first-byte filter refuted as control) + step records from real table pairs on both structure classes judged by TLC (C03_Judge)",
-    text="The callback multiset of every update step is specified from decoded values before/after; TLC explores every (offset, segment) on a 4-byte block with items sharing and straddling bytes and every watch/unwatch/unwatch_all order, which also proves the lemma behind the range-intersection filter. On real config/log pairs of every platform, both structure classes, histories of patches (every offset class relative to 1- and 2-byte items, full refreshes, identical rewrites, single-bit flips) interleaved with registration churn (duplicate watch, unwatch, unwatch_all) are recorded and each step judged by TLC: exactly one call per live distinct observer iff the decoded value (temperatures: stored reading) changed, correct old/new values, new block visible.",
+    text="The callback multiset of every update step is specified from decoded values before/after; TLC explores every (offset, segment) on a 4-byte block with items sharing and straddling bytes and every watch/unwatch/unwatch_all order, which also proves the lemma behind the range-intersection filter. On real config/log pairs of every platform, both structure classes, histories of patches (every offset class relative to 1- and 2-byte items, full refreshes, identical rewrites, single-bit flips) interleaved with registration churn (duplicate watch, unwatch, unwatch_all) are recorded and each step judged by TLC: exactly one call per live distinct observer iff the decoded value (temperatures: stored reading) changed, correct old/new values, new block visible. Observers are closures and bound methods (registered twice: equal, not identical); the block is occasionally replaced wholesale and the previous update repeated; every step records whether the update was installed at all.",
     note="Trusted: TLC, canonicalisation of callback values, the W3 table construction. Items outside the block (known finding D12c) are not watched.",
     design="§4 C03")
 
 CHECKS["C17"] = dict(
     technique="ConfigMode.tla model-checked by TLC (shared future as generations; all interleavings of sleepers/switches/timeouts; always-renew control refuted) + TLC trace validation of real config_sleep/set_config_mode executions on the virtual loop + facade on/off records judged by TLC",
-    text="TLC explores every interleaving of 3 sleepers, 3 switches and delays <=3 ticks: the table is never a mixture, nobody oversleeps, every sleeper waits on a future the next switch resolves. Real executions (1..20 concurrent sleeper tasks, seeded delays, switch times, mid-sleep cancellations, four wake-order policies) are logged in virtual milliseconds and validated by TLC: a wake must happen at the switch instant or at the sleeper's own deadline, time may not advance past a due wake-up, every switch installs the complete target table. The facade rule is checked on real facades of every platform for every on/off combination of pumps and blowers, including a reconnect history.",
+    text="TLC explores every interleaving of 3 sleepers, 3 switches and delays <=3 ticks: the table is never a mixture, nobody oversleeps, every sleeper waits on a future the next switch resolves. Real executions (1..20 concurrent sleeper tasks, seeded delays, switch times, mid-sleep cancellations, four wake-order policies) are logged in virtual milliseconds and validated by TLC: a wake must happen at the switch instant or at the sleeper's own deadline, time may not advance past a due wake-up, every switch installs the complete target table. The facade rule is checked on real facades of every platform for every on/off combination of pumps and blowers, including a reconnect history. On the full async stack a pump changes state while the facade's update cycle is suspended in a late water-care poll; the installed table must match the devices when the cycle has finished.",
     note="Trusted: TLC, the virtual loop (ms grid snapping + rank offsets), derivation of member lists from the config classes. set_config_mode before any sleep raises by design (asserted in code) and is not exercised.",
     design="§4 C17")
 
@@ -73,30 +73,30 @@ CHECKS["C11"] = dict(
     design="§4 C11")
 CHECKS["C12"] = dict(
     technique="Facade.tla Inventory operators model-checked over all wirings of a small table (Facade_MC); real async and blocking facades built for enumerated output wirings on real table pairs; inventory, keys, lookups, unique ids judged by TLC (C12_Judge)",
-    text="The inventory function (device present iff a connected output's label starts with its key, table order, once each, case-insensitive user-demand match, class from DEVICES, sensors iff their item exists) is specified with code-point sequences so that TLC decides the prefix tests; Facade_MC checks it on all 512 wirings of 3 outputs incl. duplicates. On real config/log pairs of every platform each output is wired to each sampled label with the others NA plus seeded multi-output wirings; both facade classes are built and TLC compares pumps/blowers/lights (device, demand item, order), sensors, key uniqueness, lookup identity and unique ids with the specification.",
+    text="The inventory function (device present iff a connected output's label starts with its key, table order, once each, case-insensitive user-demand match, class from DEVICES, sensors iff their item exists) is specified with code-point sequences so that TLC decides the prefix tests; Facade_MC checks it on all 512 wirings of 3 outputs incl. duplicates. On real config/log pairs of every platform each output is wired to each sampled label with the others NA plus seeded multi-output wirings; both facade classes are built and TLC compares pumps/blowers/lights (device, demand item, order), sensors, key uniqueness, lookup identity and unique ids with the specification. Wirings include combinations of accessories without an automation class and wirings with every output occupied; a facade that cannot be built for a wiring of a buildable table pair is a verdict.",
     note="Trusted: TLC, the W3 facade rig, writing label indices into the block as the wiring. Platforms without a constructible facade (C11 finding) contribute nothing.",
     design="§4 C12")
 
 CHECKS["C19"] = dict(
     technique="SnapshotLog.tla (parser line automaton + writer line sequence) with laws model-checked by TLC; abstract behaviours concretised with the shell's real logging statements/formatter, a real client's DEBUG traffic log, and every shipped snapshot served by the real simulator to both real clients; records judged by TLC (C19_Judge)",
-    text="TLC checks that a writer block parses back to exactly its fields under any surrounding junk lines, that two blocks yield two snapshots and that segments join in order. The real do_snapshot/version_strings statements are run through the shell's log-file formatter for blocks covering every byte value at every position residue, quotes, backslashes and control bytes, with junk lines around, and parsed back; real threaded-client traffic logs of a full connection (segment sizes 1..255, perturbed blocks) must reassemble to the transferred block; each of the 38 snapshots in the 34 shipped files is loaded into the real simulator and fetched by the async and the threaded client, also with the simulator's own reliability factor below 1 (a client that connects must hold the snapshot's bytes). One shell object writes all snapshots of a run (a session that manages one spa after another).",
+    text="TLC checks that a writer block parses back to exactly its fields under any surrounding junk lines, that two blocks yield two snapshots and that segments join in order. The real do_snapshot/version_strings statements are run through the shell's log-file formatter for blocks covering every byte value at every position residue, quotes, backslashes and control bytes, with junk lines around, and parsed back; real threaded-client traffic logs of a full connection (segment sizes 1..255, perturbed blocks) must reassemble to the transferred block; each of the 38 snapshots in the 34 shipped files is loaded into the real simulator and fetched by the async and the threaded client, also with the simulator's own reliability factor below 1 (a client that connects must hold the snapshot's bytes). One shell object writes all snapshots of a run (a session that manages one spa after another). Traffic-log blocks contain bracketed text inside single segments (D21).",
     note="Trusted: TLC, W1/W2 doubles, the stub that carries the shell's logging statements. D17 (double quote in a full segment) was found and fixed.",
     design="§4 C19")
 
 CHECKS["C20"] = dict(
     technique="ThreadedEngine.tla model-checked by TLC (iteration sub-steps with registration/enqueue/arrival/time in between; no-re-arm control refuted) + TLC-simulated behaviours replayed sub-step by sub-step into the real GeckoUdpSocket + real blocking-client handshakes under bounded loss judged by TLC",
-    text="TLC checks FIFO order of transmissions, pacing >= 1/rate, <= 1+N transmissions, no retransmission after an answer, removal at the next cleanup, for all registration orders of two requests and an overlapping, raising service handler. Hundreds (quick) to thousands (thorough) of TLC-simulated behaviours are replayed on the real engine with handlers mirroring the model and the projected state compared after every sub-step (this found and now models that a retransmission queued before the first transmission is dropped for lack of a destination). The real blocking client completes its handshake against the real simulator with an identical block under seeded loss patterns that lose up to N leading attempts of every step; transmissions per step and send gaps are judged by TLC. Handshakes lose any one segment of a status-block answer (first, second, middle, last).",
-    note="Trusted: TLC, the stepped engine (W2), exact binary time units in the replay. Assumption: no handler timeout elapses between a datagram's dispatch and the timeout scan of the same iteration. Real-thread preemption of the queues is not explored (C16 covers the locked counters).",
+    text="TLC checks FIFO order of transmissions, pacing >= 1/rate, <= 1+N transmissions, no retransmission after an answer, removal at the next cleanup, for all registration orders of two requests and an overlapping, raising service handler. Hundreds (quick) to thousands (thorough) of TLC-simulated behaviours are replayed on the real engine with handlers mirroring the model and the projected state compared after every sub-step (this found and now models that a retransmission queued before the first transmission is dropped for lack of a destination). The real blocking client completes its handshake against the real simulator with an identical block under seeded loss patterns that lose up to N leading attempts of every step; transmissions per step and send gaps are judged by TLC. Handshakes lose any one segment of a status-block answer (first, second, middle, last). Registry.tla models registrations between the two critical sections of the cleanup pass (write-back-from-copy control refuted; inductive invariant discharged by Apalache for an unbounded number of steps) and is replayed on the real socket by running another thread's registration at every lock release inside the real cleanup call; a handler whose can_handle raises must not stop the engine.",
+    note="Trusted: TLC, the stepped engine (W2), exact binary time units in the replay. Assumption: no handler timeout elapses between a datagram's dispatch and the timeout scan of the same iteration. Real-thread preemption is explored at lock releases inside the cleanup pass (Registry.tla replay); other preemption points of the queues are not (C16 covers the locked counters).",
     design="§4 C20")
 
 CHECKS["C06"] = dict(
     technique="AsyncEngine.tla model-checked by TLC at poll granularity (FIFO lock, retry/timeout/pause, consumers in arbitrary in-tick order, reply loss/lateness) + TLC trace validation of real connections with concurrent API callers under reply faults and closed gates",
-    text="TLC checks MutualExclusion, lock-holder = the only busy caller, attempts <= R, reply only after a transmission, failure only after R attempts and the call bound R*(T+P)+R+1 polls over all interleavings of two callers with lost and late replies. On the real stack 1..8 concurrent API calls (water care, reminders, key press, set value) run next to the ping/refresh/facade loops with seeded reply loss, delay and duplication, and with the freshness gate closed in the idle and in the active configuration; every send, queue put/mark/pop with the acting task, call start (with an independently computed gate) and return is logged in execution order and TLC validates: one request outstanding at a time, explicit calls served in arrival order, <= R fresh attempts, result consistent with what was popped, duration bound, nothing sent by a call whose gate was closed. Scenario kinds: concurrent calls under reply loss/delay/duplication, closed gates (idle and active table), chatter (most replies lost while unsolicited partial updates keep arriving), stalls (the event loop wakes up late; each stall is logged and moves the bounds of the trace specification by exactly its length).",
+    text="TLC checks MutualExclusion, lock-holder = the only busy caller, attempts <= R, reply only after a transmission, failure only after R attempts and the call bound R*(T+P)+R+1 polls over all interleavings of two callers with lost and late replies. On the real stack 1..8 concurrent API calls (water care, reminders, key press, set value) run next to the ping/refresh/facade loops with seeded reply loss, delay and duplication, and with the freshness gate closed in the idle and in the active configuration; every send, queue put/mark/pop with the acting task, call start (with an independently computed gate) and return is logged in execution order and TLC validates: one request outstanding at a time, explicit calls served in arrival order, <= R fresh attempts, result consistent with what was popped, duration bound, nothing sent by a call whose gate was closed. Scenario kinds: concurrent calls under reply loss/delay/duplication, closed gates (idle and active table), chatter (most replies lost while unsolicited partial updates keep arriving), stalls (the event loop wakes up late; each stall is logged and moves the bounds of the trace specification by exactly its length). Logs are validated against the configuration table in force while they ran (an all-replies-lost call in active mode included).",
     note="Trusted: TLC, virtual loop, queue wrapper, harness decoding of verbs/sequence bytes, the freshness window 2 x PING_FREQUENCY as the meaning of 'answering pings'. Gates are read as evaluated at call start (the code checks once, before the lock); retransmissions after freshness expires mid-call (D11) are outside this reading and documented in DESIGN.md.",
     design="§4 C06")
 CHECKS["C07"] = dict(
     technique="AsyncEngine.tla dispatch invariants model-checked by TLC (CapablePopper, UnhandledOnlyMarked, NoHeadOfLine) + TLC's order-flip witness schedule reproduced on the real queue + TLC trace validation of real connections under junk / mis-addressed / malformed traffic and four wake-order policies",
-    text="TLC checks that only accepting consumers pop, Unhandled only pops what it marked a wake-up earlier, and no datagram heads the queue for more than 3 polls + stalls, under every in-tick order; its counterexample to 'Unhandled never discards a framed packet' (Packet before Unhandled in one tick, the reverse in the next) is imposed on the real consumers with the loop's rank script and must reproduce, while both stable orders must let the Packet consumer take the packet. Real connections receive seeded sequences of unknown, unsolicited, mis-addressed, malformed, water-care-error, RF-error and partial-update datagrams (with a client handler that suspends), with and without waiters; TLC validates FIFO single consumption, acceptance by the popping consumer, mark-before-Unhandled-pop, re-queue only of well-formed correctly addressed frames, head-of-line bound; state around mis-addressed traffic is compared directly. A third of the scenarios run on an event loop that occasionally stalls (logged stalls move the head-of-line bound).",
+    text="TLC checks that only accepting consumers pop, Unhandled only pops what it marked a wake-up earlier, and no datagram heads the queue for more than 3 polls + stalls, under every in-tick order; its counterexample to 'Unhandled never discards a framed packet' (Packet before Unhandled in one tick, the reverse in the next) is imposed on the real consumers with the loop's rank script and must reproduce, while both stable orders must let the Packet consumer take the packet. Real connections receive seeded sequences of unknown, unsolicited, mis-addressed, malformed, water-care-error, RF-error and partial-update datagrams (with a client handler that suspends), with and without waiters; TLC validates FIFO single consumption, acceptance by the popping consumer, mark-before-Unhandled-pop, re-queue only of well-formed correctly addressed frames, head-of-line bound; state around mis-addressed traffic is compared directly. A third of the scenarios run on an event loop that occasionally stalls (logged stalls move the head-of-line bound). Junk that arrives during the handshake (queue tapped from the creation of the endpoint) must not stay at the head of the queue nor keep the handshake from completing.",
     note="Trusted: TLC, virtual loop with scripted ranks, queue wrapper, harness classification of datagrams. 'A few polling intervals' = 3 polls + 12 ms.",
     design="§4 C07")
 
@@ -113,7 +113,7 @@ CHECKS["C09"] = dict(
 
 CHECKS["C10"] = dict(
     technique="Lifecycle.tla resource variables (endpoints, task families) with Reset/Exit at every frame boundary and TaskBook.tla (bookkeeping list) model-checked by TLC + crash-point enumeration of resets and context exits on the real manager with exact resource accounting on the virtual loop, records judged by TLC (C10_Judge)",
-    text="TLC checks NoTaskLeakAfterReset, NoTaskAfterExit and BracketsClosedAtExit on the Lifecycle model. On the real stack every transport handed out (and its close()) and every task (through the task factory) is tracked; resets are injected on a grid of virtual times over discovery, each handshake step, steady state and error states, context exits likewise; after each reset the endpoints and tasks of the abandoned connection are examined, late datagrams (STATP, RFERR, APING, WCERR, STATV) are delivered to every abandoned protocol object and 200 virtual seconds pass with all accessor / spa / device observers instrumented; reconnect cycles measure boundedness; a sweep of the task-tidy period moves the tidy pass relative to task creation. TaskBook.tla models the bookkeeping list (atomic tidy pass: NoOrphan holds; read-suspend-write-back control is refuted) and is bound by a probe that adds a task at every loop iteration of the real manager across several tidy passes: no live task may be missing from the list and cancelling the family ends them all. TLC judges every record.",
+    text="TLC checks NoTaskLeakAfterReset, NoTaskAfterExit and BracketsClosedAtExit on the Lifecycle model. On the real stack every transport handed out (and its close()) and every task (through the task factory) is tracked; resets are injected on a grid of virtual times over discovery, each handshake step, steady state and error states, context exits likewise; after each reset the endpoints and tasks of the abandoned connection are examined, late datagrams (STATP, RFERR, APING, WCERR, STATV) are delivered to every abandoned protocol object and 200 virtual seconds pass with all accessor / spa / device observers instrumented; reconnect cycles measure boundedness; a sweep of the task-tidy period moves the tidy pass relative to task creation. TaskBook.tla models the bookkeeping list (atomic tidy pass: NoOrphan holds; read-suspend-write-back control is refuted) and is bound by a probe that adds a task at every loop iteration of the real manager across several tidy passes: no live task may be missing from the list and cancelling the family ends them all. TLC judges every record. Leaving the context is bounded in virtual time: a context exit that does not return is a verdict.",
     note="Trusted: TLC, virtual loop accounting. 'Promptly' = 0.3 s after a reset returned (discovery resources: the discovery timeout), 1 s after exit. Known finding D7b (exit without reset leaves the connection endpoint open); D7, D15, D19 were found and fixed.",
     design="§4 C10")
 
